@@ -157,10 +157,13 @@ pub fn execute(seed: u64, sc: &Scenario, stats: &mut Stats) -> Result<(), Violat
                 region = None;
             }
             Op::SetRegion(l, t, w, h) => {
-                let l = (*l).min(iw - 1);
-                let t = (*t).min(ih - 1);
-                let w = (*w).clamp(1, iw - l);
-                let h = (*h).clamp(1, ih - t);
+                // coordinates are drawn for images up to 400 px; on smaller images they wrap
+                // (clamping would pile most rectangles up as 1x1 at the bottom-right corner)
+                let l = if *l < iw { *l } else { *l % iw };
+                let t = if *t < ih { *t } else { *t % ih };
+                let fit = |v: u32, room: u32| if v >= 10_000 || v <= room { v.clamp(1, room) } else { 1 + (v - 1) % room };
+                let w = fit(*w, iw - l);
+                let h = fit(*h, ih - t);
                 img.set_image_region(CropInfo { left: l, top: t, width: w, height: h });
                 region = Some((l, t, w, h));
                 nregions += 1;
